@@ -272,8 +272,15 @@ func doParse(fnName string, status int, headers [][2]string, body string) map[st
 }
 
 func toHTTP(w wireReq) *http.Request {
-	req := httptest.NewRequest(w.Method, w.URL, strings.NewReader(w.Body))
-	req.RequestURI = ""
+	// http.NewRequest parses the target as a URL for every method (httptest.NewRequest would read a
+	// CONNECT target as an authority); the fields a server-side request has are filled in by hand.
+	req, err := http.NewRequest(w.Method, w.URL, strings.NewReader(w.Body))
+	if err != nil {
+		panic("bad request in harness: " + err.Error())
+	}
+	req.RemoteAddr = "192.0.2.1:1234"
+	req.Host = req.URL.Host
+	req.RequestURI = req.URL.RequestURI()
 	for _, h := range w.Headers {
 		req.Header.Add(h[0], h[1])
 	}
